@@ -360,7 +360,7 @@ class CallMixin:
             raise Unsupported(f"{self.where(node)}: inlining depth exceeded at {key}")
         self.check_decorators(key, fn)
         self.inlined.append((self.cur_fn, key))
-        st.ghost = dict(st.ghost, unannotated_loop=True)     # code without a contract: a failed proof past this point must replay to count
+        # (executing a helper in place is exact; what is approximate inside it — a loop without an invariant — marks the path itself, loops.py)
         a = fn.args
         names = [x.arg for x in a.posonlyargs + a.args]
         env = {}
